@@ -1,0 +1,91 @@
+//go:build verif
+
+package queue
+
+// Contracts for govc (comment-only; compiled only with -tags verif). Property C24.
+//
+//@ spec import lib/time
+//
+// mergeQueued: the merged request holds the objects of every write, each write contiguous and
+// in write order (ghost offs[j] is where write j starts), its sequence number is the largest
+// one, and its flush channels are those of the writes.
+//@ func mergeQueued
+//@   assigns nothing
+//@   ghost var total int = 0
+//@   ghost var offs map[int]int
+//@   ghost update before @append#1: offs = update(offs, i, total)
+//@   ghost update after @append#1: total = total + len(qs[i].Objects)
+//@   ghost var fidx map[int]int
+//@   ghost var fsrc map[int]int
+//@   ghost update before @append#2: fidx = update(fidx, i, len(req.flushChans))
+//@   ghost update before @append#2: fsrc = update(fsrc, len(req.flushChans), i)
+//@   loop 1 invariant [req] req != nil && len(qs) > 0
+//@   loop 1 invariant [len] len(req.Objects) == total && total >= 0
+//@   loop 1 invariant [place] forall j int :: (0 <= j && j < _i) ==> (0 <= offs[j] && offs[j] + len(qs[j].Objects) <= total)
+//@   loop 1 invariant [order] forall a int, b int :: (0 <= a && a < b && b < _i) ==> offs[a] + len(qs[a].Objects) <= offs[b]
+//@   loop 1 invariant [content] forall j int, k int :: (0 <= j && j < _i && 0 <= k && k < len(qs[j].Objects)) ==> req.Objects[offs[j] + k] == qs[j].Objects[k]
+//@   loop 1 invariant [max] forall j int :: (0 <= j && j < _i) ==> qs[j].SequenceNumber <= req.SequenceNumber
+//@   loop 1 invariant [attained] exists j int :: 0 <= j && j < len(qs) && (j < _i || j == 0) && req.SequenceNumber == qs[j].SequenceNumber
+//@   loop 1 invariant [flush-only] forall m int :: (0 <= m && m < len(req.flushChans)) ==> (0 <= fsrc[m] && fsrc[m] < _i && qs[fsrc[m]].flushChan == req.flushChans[m] && req.flushChans[m] != nil)
+//@   loop 1 invariant [flush-all] forall j int :: (0 <= j && j < _i && qs[j].flushChan != nil) ==> (0 <= fidx[j] && fidx[j] < len(req.flushChans) && req.flushChans[fidx[j]] == qs[j].flushChan)
+//@   ensures [nil-iff-empty] (result == nil) == (len(qs) == 0)
+//@   ensures [len] result != nil ==> len(result.Objects) == total
+//@   ensures [order] result != nil ==> (forall a int, b int :: (0 <= a && a < b && b < len(qs)) ==> offs[a] + len(qs[a].Objects) <= offs[b])
+//@   ensures [place] result != nil ==> (forall j int :: (0 <= j && j < len(qs)) ==> (0 <= offs[j] && offs[j] + len(qs[j].Objects) <= total))
+//@   ensures [content] result != nil ==> (forall j int, k int :: (0 <= j && j < len(qs) && 0 <= k && k < len(qs[j].Objects)) ==> result.Objects[offs[j] + k] == qs[j].Objects[k])
+//@   ensures [max] result != nil ==> (forall j int :: (0 <= j && j < len(qs)) ==> qs[j].SequenceNumber <= result.SequenceNumber)
+//@   ensures [attained] result != nil ==> (exists j int :: 0 <= j && j < len(qs) && result.SequenceNumber == qs[j].SequenceNumber)
+//@   ensures [flush-only] result != nil ==> (forall m int :: (0 <= m && m < len(result.flushChans)) ==> (0 <= fsrc[m] && fsrc[m] < len(qs) && qs[fsrc[m]].flushChan == result.flushChans[m]))
+//@   ensures [flush-all] result != nil ==> (forall j int :: (0 <= j && j < len(qs) && qs[j].flushChan != nil) ==> (0 <= fidx[j] && fidx[j] < len(result.flushChans) && result.flushChans[fidx[j]] == qs[j].flushChan))
+//
+//@ type Queue
+//@   monitor seqMu protects seqNum
+//@   stable maxSize, batchSize, timeout, batchCh, sendCh, C, done, closed
+//@   stable_set_in New
+//
+// Write: under seqMu the sequence number grows by exactly one and the element sent to the batch
+// channel carries it together with the caller's objects and flush channel.
+//@ func (*Queue) Write
+//@   requires [recv] q != nil
+//@   assigns *
+//@   assert @send:q.batchCh: [carries] result != nil && result.SequenceNumber == q.seqNum && q.seqNum == atlock(q.seqNum) + 1 && result.Objects == objects && result.flushChan == c
+//@   ensures [returns-seq] result1 == nil ==> result0 == atlock(q.seqNum) + 1
+//
+// run: the single consumer loop. Ghost R/nR is the sequence of non-nil elements received from the
+// batch channel so far, nE the number of them already emitted. The pending buffer is exactly the
+// window R[nE..nR): every emission hands mergeQueued that window (so elements are emitted once,
+// in order, whole), the window never reaches the batch size at the loop head, and the emitted
+// sequence numbers strictly increase. FIFO order of the channel and the strictly increasing
+// numbers of the elements arriving are the (listed) assumption about Write + Go channels.
+//@ func (*Queue) run
+//@   requires [recv] q != nil && q.batchSize >= 1
+//@   assigns *, chanClosed, timerRunning, timerDur
+//@   ghost var R map[int]int
+//@   ghost var nR int = 0
+//@   ghost var nE int = 0
+//@   ghost var lastSeq int = 0
+//@   ghost var lastBatchSeq int = 0
+//@   assume @recv:q.batchCh: [fifo-increasing] result != nil ==> result.SequenceNumber > lastSeq
+//@   ghost update @recv:q.batchCh: R = ite(result != nil, update(R, nR, result), R)
+//@   ghost update @recv:q.batchCh: nR = ite(result != nil, nR + 1, nR)
+//@   ghost update @recv:q.batchCh: lastSeq = ite(result != nil, result.SequenceNumber, lastSeq)
+//@   assert @mergeQueued: [bounded] len(qObjs) <= q.batchSize
+//@   assert @mergeQueued: [window] nR == nE + len(qObjs) && (forall k int :: (0 <= k && k < len(qObjs)) ==> qObjs[k] == R[nE + k])
+//@   ghost update @mergeQueued: nE = nE + len(qObjs)
+//@   assert @send:q.sendCh: [batch-seq-increases] result != nil && result.SequenceNumber > lastBatchSeq && result.SequenceNumber <= lastSeq
+//@   ghost update @send:q.sendCh: lastBatchSeq = result.SequenceNumber
+//@   loop 1 invariant [window] nE >= 0 && nR == nE + len(qObjs) && (forall k int :: (0 <= k && k < len(qObjs)) ==> qObjs[k] == R[nE + k])
+//@   loop 1 invariant [bounded] len(qObjs) < q.batchSize
+//@   loop 1 invariant [seqs] lastBatchSeq <= lastSeq && (forall k int :: (0 <= k && k < len(qObjs)) ==> (qObjs[k] != nil && lastBatchSeq < qObjs[k].SequenceNumber && qObjs[k].SequenceNumber <= lastSeq))
+//
+//@ func stopTimer
+//@   assigns timerRunning
+//
+// Request.Close fires the completion signal of every write in the batch (and only those).
+//@ func (*Request) Close
+//@   requires [recv] r != nil
+//@   assigns chanClosed
+//@   loop 1 invariant [fired] forall m int :: (0 <= m && m < _i) ==> chanClosed[r.flushChans[m]]
+//@   loop 1 invariant [only] forall c int :: (chanClosed[c] && !old(chanClosed)[c]) ==> (exists m int :: 0 <= m && m < _i && r.flushChans[m] == c)
+//@   ensures [fired] forall m int :: (0 <= m && m < len(r.flushChans)) ==> chanClosed[r.flushChans[m]]
+//@   ensures [only] forall c int :: (chanClosed[c] && !old(chanClosed)[c]) ==> (exists m int :: 0 <= m && m < len(r.flushChans) && r.flushChans[m] == c)
